@@ -42,16 +42,23 @@ macro_rules! blocks_case {
                     i += 1;
                 }
             }
+            // per block, in place (the `*_block(&mut Block)` entry point)
+            let mut a4 = input;
+            let mut m4 = $ty::$t2::inner_iv_init(c.clone(), blk::<$ivbs>(&iv));
+            for blk in blocks_mut::<$mbs>(&mut a4).iter_mut() {
+                do_block!($dir, m4, blk);
+            }
             let mut i = 0;
             while i < L {
                 assert!(a[i] == o2[i], "b2b output differs from in-place output");
                 assert!(a[i] == o3[i], "per-block b2b/inout output differs from in-place output");
+                assert!(a[i] == a4[i], "per-block in-place output differs from multi-block in-place output");
                 i += 1;
             }
-            let (s1, s2, s3) = (m1.iv_state(), m2.iv_state(), m3.iv_state());
+            let (s1, s2, s3, s4) = (m1.iv_state(), m2.iv_state(), m3.iv_state(), m4.iv_state());
             let mut j = 0;
             while j < $ivlen {
-                assert!(s1[j] == s2[j] && s1[j] == s3[j], "chaining state differs between in-place and b2b");
+                assert!(s1[j] == s2[j] && s1[j] == s3[j] && s1[j] == s4[j], "chaining state differs between in-place and b2b");
                 j += 1;
             }
             kani::cover!(true);
